@@ -2,12 +2,15 @@
 from __future__ import annotations
 
 import json
+import multiprocessing
+import os
 import time
 from typing import List
 
 from harness.lib.core import VERIF, Ctx, lean_lock, run_driver, shrink_ops
 from harness.extract import filesystem as x_fs
 from harness.extract import fsxlate as x_fsm
+from harness.extract import filesystem_node as x_fsn
 from harness.rigs import filesystem as rig
 
 MANIFEST = {
@@ -23,24 +26,54 @@ MANIFEST = {
             "from the source (Gen/FileSystem.lean, obligations C15_gen_*) + differential rig R-fs (bounded-exhaustive, then random) "
             "on the real FileSystem, directly, under a node, and through the agent actions' form_request. Deepened: the Python-API "
             "entry points (create_file(force), copy_file, move_file, add_file(force), delete_*_by_id, remove_file_by_id) are operations "
-            "of the model too and keep Inv in any interleaving with requests and ticks (move_file under the stated side condition that "
-            "the moved uuid is new to the destination, which the rig checks on the real objects); Folder.restore_file and "
+            "of the model too and keep Inv in any interleaving with requests and ticks — unconditionally since round 3: `no file uuid "
+            "in two folders` (XDisj) is proved to be preserved by every request, tick, API call and node-level event, and it implies "
+            "the side condition move_file needed (C15_any_inv_reachable_full, C15_file_in_one_folder); Folder.restore_file and "
             "Folder.add_file are translated statement by statement from the source and proved equal to the model; num_access and the "
             "folder scan countdown are carried in a passive ledger compared on every operation; truncated / over-long / misspelt "
-            "request paths are answered by the model's total `resolve` and compared.",
+            "request paths are answered by the model's total `resolve` and compared. Round 3: the glue between a Node and its file "
+            "system is part of the model (Model/FileSystemNode.lean) with the power state as an INPUT flag: Node.pre_timestep resets the "
+            "file system in every power state, Node.apply_timestep steps it (and completes the node scan = FileSystem.scan(instant)) "
+            "only while ON, requests are refused while not ON. Proved for EVERY power history and every sequence of requests, API "
+            "calls, node scans and ticks: the counters are zero after every Node.pre_timestep and that is what the node reports "
+            "(C15_counters_start_at_zero); at the end of a tick they are the tally of THAT tick's operations only "
+            "(C15_node_counters_count_this_tick, with C15_api_counters_step for the API calls); a node that is not ON is frozen; Inv at "
+            "node level. The guard table is regenerated from Node.pre_timestep / apply_timestep / describe_state / the file_system and "
+            "os routes, the Simulation -> Network -> node call chain and the list of all writers of the counters (Gen/FileSystemNode.lean, "
+            "C15_gen_node_glue / _sites / _counter_writers). The full request table (23 shapes) is regenerated from the three "
+            "_init_request_manager methods; for ANY path addressed to a folder or file that is not live, other than the explicit create / "
+            "restore requests, the node's whole state incl. every num_access is unchanged and the answer is not success "
+            "(C15_path_on_deleted_folder/file_changes_nothing). node-file-create / node-folder-create on a live namesake: refused or "
+            "no-op; on a deleted namesake: exactly one new live item, the deleted one untouched; no file/folder action ever answers "
+            "with an exception (C15_action_*). Every method of the four classes is classified modelled (and then read by a tie) or "
+            "listed unmodelled (C15_gen_method_inventory, C15_modelled_iff_tied). Rig: additional surface `net` = a real Computer in a "
+            "small network driven only through sim.pre_timestep / apply_request / apply_timestep with shutdown / startup / reset "
+            "requests (durations 0..3) and node scans interleaved with file operations and agent actions in the same tick; the "
+            "counters are read from the simulation's describe_state() and through a HostObservation at the start and end of every tick.",
     "note": "C15-specific: health status, red-scan timers, sizes and file types are not modelled (no influence on structure "
-            "or response status); cross-folder uuid disjointness is not part of Inv (hypothesis of the move_file theorem); six leaf "
-            "handlers without a validator still raise IndexError on a truncated path (modelled as `raised`; C05's matter).",
+            "or response status); six leaf "
+            "handlers without a validator still raise IndexError on a truncated path (modelled as `raised`; C05's matter); the power "
+            "machine is C12's: here the power flag is an input read from the real node, theorems hold for every flag history; the "
+            "database service's direct writes to the counters (ENCRYPT query) are listed, not modelled.",
     "technique": "Lean 4 invariant proof over an executable file-system model; model tied by regenerated tables and a differential rig",
     "design_ref": "5/C15",
 }
-MODULES = ["PrimaiteModel.Props.C15", "PrimaiteModel.Props.C15Api"]
+MODULES = ["PrimaiteModel.Props.C15", "PrimaiteModel.Props.C15Api", "PrimaiteModel.Props.C15Node", "PrimaiteModel.Props.C15Verbs",
+           "PrimaiteModel.Props.C15Actions", "PrimaiteModel.Props.C15Inventory", "PrimaiteModel.Props.C15Disjoint"]
 EXE = "drv_c15"
 
 
+H = rig.HEAD  # protocol lines before the first operation
+
+
 def _run_case(case: dict):
-    impl, verdicts = rig.run_impl(case)
-    return impl, verdicts, rig.model_lines(case)
+    impl, verdicts, flags = rig.run_impl(case)
+    return impl, verdicts, rig.model_lines(case, flags)
+
+
+def _impl_only(case: dict):
+    """Implementation side of one case (runs in a worker process; cases are independent and deterministic)."""
+    return rig.run_impl(case)
 
 
 def _diff_case(case: dict):
@@ -59,6 +92,8 @@ def _op_sig(op: list) -> dict:
         sig["force"] = bool(op[3])
     if k in ("fverb", "xverb", "sverb"):
         sig["verb"] = op[-1]
+    if k == "power":
+        sig["key"] = op[1]
     return sig
 
 
@@ -80,15 +115,15 @@ def _report(ctx: Ctx, name: str, case: dict):
     if ok:
         small = case
         ok, ci, cm, i, lines, verdicts, bo = _diff_case(small)
-    if bo != -1 and (i == -1 or bo <= i - 2):
+    if bo != -1 and (i == -1 or bo <= i - H):
         op = small["ops"][bo]
         sig = dict(_op_sig(op), kind="oracle", clause=verdicts[bo][0], surface=small["surface"])
         what = f"C15 oracle fails on the implementation after op {bo} {op}: {verdicts[bo]}"
     else:
-        op = small["ops"][i - 2] if i >= 2 else ["?"]
+        op = small["ops"][i - H] if i >= H else ["?"]
         sig = dict(_op_sig(op), kind="model-vs-impl", surface=small["surface"],
                    field="status" if ci[i].split(" | ")[0] != cm[i].split(" | ")[0] else "state")
-        what = (f"file system differs from the proved model at op {i - 2} {op}: impl={ci[i]!r} model={cm[i]!r}")
+        what = (f"file system differs from the proved model at op {i - H} {op}: impl={ci[i]!r} model={cm[i]!r}")
     ctx.violation(sig, what, {"case": small, "lines": lines, "impl": ci, "model": cm, "first_diff": i, "oracle": verdicts, "from": name})
 
 
@@ -96,8 +131,11 @@ def run(ctx: Ctx):
     with lean_lock():
         ctx.extract(x_fs.GEN_NAME, x_fs.emit)
         ctx.extract(x_fsm.GEN_NAME, x_fsm.emit)
+        ctx.extract(x_fsn.GEN_NAME, x_fsn.emit)
         ctx.prove(MODULES, exes=[EXE], clean=False, leanchecker=ctx.thorough)
-    ctx.cov["rule"] = ("case = (surface in {FileSystem.apply_request, Simulation.apply_request under a node, agent-action form_request}, "
+    ctx.cov["rule"] = ("case = (surface in {FileSystem.apply_request, Simulation.apply_request under a node, agent-action form_request, "
+                       "`net` = a computer in a small network driven through sim.pre_timestep/apply_request/apply_timestep with power "
+                       "requests, node scans and start-up/shut-down durations 0..3}, "
                        "folder restore duration in {None,0,1,2,3}, operation sequence); after EVERY operation the response status and the "
                        "whole structure (dictionaries in order, flags, countdowns, routes, counters) are compared with the model and "
                        "C15's own oracle is evaluated on the real objects; a case is non-trivial when at some point an item is in a "
@@ -112,6 +150,14 @@ def run(ctx: Ctx):
             ctx.count(f"exhaustive:{fam}:alphabet={len(alpha)}:depth={depth}", len(alpha) ** depth)
             for k, ops in enumerate(rig.exhaustive(alpha, depth)):
                 yield f"exh{fam}{depth}:{k}", {"surface": "fs", "restore_duration": 1 if fam != "B" else None, "ops": ops}
+        # state-graph families: every operation out of every distinct model state reachable within `depth - 1` operations
+        for fam, alpha, depth, rd in (("GA", rig.core_alphabet(), ctx.scale(6, 8), 1), ("GB", rig.full_alphabet(), ctx.scale(3, 4), None)):
+            stats: dict = {}
+            for k, ops in enumerate(rig.graph_cases(alpha, depth, rd, lambda ls: run_driver(EXE, ls), stats)):
+                yield f"graph{fam}{depth}:{k}", {"surface": "fs", "restore_duration": rd, "ops": ops}
+            for d, st in stats.items():
+                ctx.count(f"graph:{fam}:alphabet={len(alpha)}:depth={d}:transitions", st["transitions"])
+                ctx.count(f"graph:{fam}:alphabet={len(alpha)}:depth={d}:states_so_far", st["states_so_far"])
         depth = ctx.scale(3, 4)
         ctx.count(f"exhaustive:C:alphabet={len(rig.api_alphabet())}:depth={depth}", len(rig.api_alphabet()) ** depth)
         for k, ops in enumerate(rig.exhaustive(rig.api_alphabet(), depth)):
@@ -125,15 +171,32 @@ def run(ctx: Ctx):
         rng3 = ctx.rng.fork("fs-churn")
         for k in range(ctx.scale(1200, 10000)):
             yield f"churn:{k}", rig.gen_churn_case(rng3)
+        # node level: a real computer in a small network, power requests interleaved with file operations
+        depth = ctx.scale(3, 4)
+        for c, cfg in enumerate(rig.node_configs()):
+            ctx.count(f"exhaustive:N:alphabet={len(rig.node_alphabet())}:depth={depth}:up={cfg['up']}:down={cfg['down']}",
+                      len(rig.node_alphabet()) ** depth)
+            for k, ops in enumerate(rig.exhaustive(rig.node_alphabet(), depth)):
+                yield f"exhN{depth}:{c}:{k}", {"surface": "net", "restore_duration": 1, "node": dict(cfg, actions=bool(k % 2)), "ops": ops}
+        rng4 = ctx.rng.fork("fs-net")
+        for k in range(ctx.scale(700, 6000)):
+            yield f"net:{k}", rig.gen_net_case(rng4, max_ticks=ctx.scale(10, 14))
 
-    state = {"agree": 0, "total": 0, "reported": 0, "t_impl": 0.0, "t_model": 0.0}
+    state = {"agree": 0, "total": 0, "reported": 0, "t_impl": 0.0, "t_model": 0.0, "actions": set()}
+
+    # the implementation side of a chunk is spread over a few forked workers (the machine is shared: at most 3 + this process)
+    workers = max(1, min(3, int(os.environ.get("C15_WORKERS", "3")), (os.cpu_count() or 2) - 1))
+    pool = multiprocessing.get_context("fork").Pool(workers) if workers > 1 else None
+    ctx.notes.append(f"implementation side run by {workers} worker process(es)")
 
     def process(cases):
         # implementation side, then ONE driver run per chunk
         t0 = time.time()
         impl_all, verd_all, lines_all, bounds = [], [], [], []
-        for name, case in cases:
-            impl, verdicts, lines = _run_case(case)
+        only = [c for _, c in cases]
+        results = pool.map(_impl_only, only, chunksize=max(1, min(250, len(only) // (workers * 4) + 1))) if pool else map(_impl_only, only)
+        for (name, case), (impl, verdicts, flags) in zip(cases, results):
+            lines = rig.model_lines(case, flags)
             bounds.append((len(lines_all), len(lines)))
             lines_all += lines
             impl_all.append(impl)
@@ -149,19 +212,24 @@ def run(ctx: Ctx):
             ctx.cov["traces_validated_against_impl"] += 1
             state["total"] += 1
             ci, cm = rig.canon(impl), rig.canon(model)
-            statuses = [m.split(" | ")[0] for m in cm[2:]]
-            has_deleted = any(":1:" in m or ":1)" in m or ":1," in m for m in cm[2:])
+            statuses = [m.split(" | ")[0] for m in cm[H:]]
+            has_deleted = any(":1:" in m or ":1)" in m or ":1," in m for m in cm[H:])
             ctx.case(case, has_deleted and any(s in ("failure", "unreachable") for s in statuses))
             ctx.count("surface:" + case["surface"])
             n = len(case["ops"])
             ctx.count("len:" + ("1-5" if n <= 5 else "6-15" if n <= 15 else "16-30" if n <= 30 else "31+"))
+            via_actions = case["surface"] == "action" or bool((case.get("node") or {}).get("actions"))
             for op, s in zip(case["ops"], statuses):
                 ctx.count("op:" + op[0])
                 ctx.count(f"answer:{op[0]}:{s}")
+                act = rig.action_for(op) if via_actions else None
+                if act is not None:
+                    ctx.count(f"action:{act[0]}:{s}")
+                    state["actions"].add(act[0])
             if ci == cm and not any(verdicts):
                 state["agree"] += 1
                 if name.startswith("gen"):
-                    ctx.sample({"case": name, "surface": case["surface"], "lines": lines_all[st + 2:st + 10], "answers": cm[2:10]}, cap=3)
+                    ctx.sample({"case": name, "surface": case["surface"], "lines": lines_all[st + H:st + H + 8], "answers": cm[H:H + 8]}, cap=3)
                 continue
             if state["reported"] < 5:  # shrink and report the first few; the rest are counted
                 state["reported"] += 1
@@ -175,6 +243,12 @@ def run(ctx: Ctx):
             chunk = []
     if chunk:
         process(chunk)
+    if pool:
+        pool.close()
+        pool.join()
+    registered = rig.registered_file_actions()
+    ctx.oblige("rig:every registered file/folder action is driven through form_request", "correspondence",
+               registered == state["actions"], f"registered {sorted(registered)}; driven {sorted(state['actions'])}")
     ctx.notes.append(f"implementation side {state['t_impl']:.1f}s, model side {state['t_model']:.1f}s")
     ctx.oblige("rig:R-fs agrees on every trace and the oracle holds", "correspondence", state["agree"] == state["total"],
                f"{state['total'] - state['agree']} of {state['total']} traces disagree")
